@@ -1805,3 +1805,7 @@ N('c16-register-words-as-set', 'C16', LEX,
 N('c05-runtime-loaded-first-reordered', 'C05', LOADER,
   "        self._main_segment.clear()\n        self._routine_segment.clear()\n        self._routines.clear()\n        self._load_runtime()\n",
   "        self._routines.clear()\n        self._load_runtime()\n        self._main_segment.clear()\n        self._routine_segment.clear()\n")
+B('c01-in-list-item-emits-directly', 'C01', 'R04.n', LOOP,
+  "            if not self._push_light_names(inner_coder, operand):", "            if not self._push_light_names(code_gen, operand):")
+N('c01-in-list-coder-renamed', 'C01', LOOP,
+  "        inner_coder = CodeGen()\n        operand = {", "        item_code = CodeGen()\n        inner_coder = item_code\n        operand = {")
